@@ -134,7 +134,14 @@ def move_staticmethod_static_scope(source: str, preserve: Collection[str]) -> st
             else:
                 attributes_to_preserve.add(node.value.id)
 
-    static_names = {funcdef.name for funcdef in parsing.iter_funcdefs(root)} | preserve
+    # Every name that is bound or referred to anywhere is taken, not only those of functions
+    static_names = (
+        {funcdef.name for funcdef in parsing.iter_funcdefs(root)}
+        | {node.id for node in core.walk(root, ast.Name)}
+        | {node.name for node in core.walk(root, ast.ClassDef)}
+        | {(alias.asname or alias.name).split(".")[0] for alias in core.walk(root, ast.alias)}
+        | preserve
+    )
     name_replacements = {}
 
     replacements = {}
